@@ -8,6 +8,7 @@ import Blue.Proofs.Stack
 import Blue.Proofs.Kvs
 import Blue.Proofs.ScanLive
 import Blue.Proofs.StoreHistScan
+import Blue.Proofs.StoreHistCursor
 /-! # Property C03 — range scans return exactly the live keys in range, in order, matching reads
 
 Property theorems only.  The scan a store performs is the cursor stack
@@ -39,7 +40,19 @@ the immutable memtable and its file are both children, and identical files — a
 shows every live version in range exactly once.  What no theorem covers is the malformed case of
 one `(key, timestamp)` with different payloads in different children (stream `stackmal` of C11
 records what the code does there).  The composition as it was written before the repair
-(per-component pruning) violates the property: `scan_resurrects_deleted_key` (D-1). -/
+(per-component pruning) violates the property: `scan_resurrects_deleted_key` (D-1).
+
+History level (last section, `Blue.StoreHist`): `history_scan_cursor` composes the above with the
+history model — after ANY valid history the stack over the reached state's components shows, under
+every finite program, the reference cursor over `specScan ops sb eb` (the keys whose last accepted
+write is a put, in range, in key order; a function of the operation list and the bounds).  There the
+SHAPE hypotheses (`Family`, `FamilyW`, sortedness of a level's concatenation, non-empty levels, the
+merged lists) are no longer hypotheses: `history_children_are_tables` derives them from the history
+invariant (I1, I2).  What is STILL a hypothesis there: every component's cursor behaves as the
+reference cursor over that component's sorted version list (C10 table cursors, C11 `bounds_over`,
+C17 skiplist cursor, and the correspondence check that the dumped components are what the cursors
+read); and sequentiality — scans are opened between completed operations (the flush window and a
+scan concurrent with a write are not histories of `Blue.StoreHist`). -/
 namespace Blue.Props.C03
 open Blue.Spec Blue.Cursor
 
@@ -397,9 +410,9 @@ The right-hand side of `scan_spec*` / `store_scan_spec_dups` is the list
 rollovers, flushes and compactions meeting `CompactionOk` (the hypotheses of the compaction step are
 listed in Props/C01), with `tomb` read off the history's payload map, that list holds exactly the
 versions of the last accepted writes of the keys in range whose last write was a put, one per key,
-in the order of `M`.  NOT composed here: that the cursor stack of the reached store behaves as that
-list is `store_scan_spec_dups`, whose hypotheses (children behave as tables, `Family`) are not
-derived from the history model. -/
+in the order of `M`.  The composition with `store_scan_spec_dups` (the cursor stack of the reached
+store behaves as that list) is the NEXT section (`history_scan_cursor`), where the `Family` /
+`FamilyW` hypotheses are derived from the history invariant. -/
 section History
 open Blue.StoreHist Blue.Kvs
 
@@ -476,6 +489,268 @@ example : (2, 2) ∉ (M.filter (isLive M 5 (tombOf (run init ops)))).filter (inR
 end Hist
 end History
 
+-- BEGIN StoreHistCursor
+/-! ## from a HISTORY to what the scan CURSOR shows (Proofs/StoreHistCursor.lean)
+
+`history_scan_refines` says what the specification LIST holds after any history;
+`store_scan_spec_dups` says the cursor stack behaves as the reference cursor over that list when its
+children are tables forming `Family` / `FamilyW`.  Here the second theorem's hypotheses about the
+SHAPE of the children are derived from the history invariant (`history_children_are_tables`) and the
+two are composed (`history_scan_cursor`).  Spec side: `specScan ops sb eb`, computed from the
+operation list and the bounds alone.  Model side: the stack over one cursor per component of the
+reached state — in two shapes: `history_scan_cursor` over the WHOLE components (`memTables` /
+`treeTables`: memtable, immutable memtable if any, every level-0 file, every non-empty level ≥ 1 as
+the concatenation of all its files), and `history_scan_cursor_in_range` over the children
+`range_scan` really builds (`memTablesR` / `treeTablesR`: memtable windows, levels ≥ 1 without the
+files the pre-filter `compare_bounds_le` leaves out — `range_prefilter_keeps_in_range_files` proves
+that the pre-filter, modelled as `cmpBoundsLe`, drops only files without an in-range key; composed
+through `scan_unchanged_by_out_of_range_children`).  STILL HYPOTHESES: each component's cursor behaves as the
+reference cursor over the component's sorted version list (`hmems`, `hfiles`) — for the real store
+C10 (table cursors), C11 (`bounds_over`, the memtable children), C17 (skiplist cursor) and the
+correspondence check; and sequentiality (a scan opened between completed operations; the flush
+window is `store_scan_spec_dups` with `FamilyW`, not reached by this model). -/
+section HistoryCursor
+open Blue.StoreHist Blue.Kvs
+
+/-- **history_children_are_tables**: in every state reached by a valid history, the children
+    `range_scan` builds are strictly sorted tables (a level ≥ 1: the concatenation of its files'
+    tables, sorted by I1 + I2), no level is an empty concatenation, NO version is visible through
+    two children (`no_dups`: the sequential model removes `imm` in the step that adds its file), and
+    the owner-tagged merged lists `treeM` / `storeM` meet `Family` / `FamilyW` with exactly these
+    children and hold exactly the versions of `allComps` -/
+theorem history_children_are_tables (ops : List Op) (hv : Valid init ops) :
+    ChildrenAreTables (run init ops).st :=
+  Blue.StoreHist.history_children_are_tables ops hv
+
+/-- the members of `specScan`: the keys whose last accepted write is a put, at that write's
+    timestamp, in range … -/
+theorem spec_scan_members (ops : List Op) (sb eb : Bound Nat) (e : Ver Nat) :
+    e ∈ specScan ops sb eb
+      ↔ ((∃ v, spec ops e.1 = some (e.2, some v)) ∧ inRange Blue.StoreHist.natLt sb eb e = true) :=
+  mem_specScan ops sb eb e
+
+/-- … in key order (strictly: one entry per key) -/
+theorem spec_scan_sorted (ops : List Op) (sb eb : Bound Nat) :
+    Sorted Blue.StoreHist.natLt (specScan ops sb eb) :=
+  specScan_sorted ops sb eb
+
+/-- **history_scan_cursor**: after ANY valid history, for every read timestamp from the published
+    sequence number on, all bounds and every finite program of
+    `seek_to_first / seek_to_last / seek k / next / prev`, the store's scan stack over the reached
+    state's components shows call by call what the reference cursor over `specScan ops sb eb` shows.
+    `n`: the loop bound of the model's pruning / bounds cursors, any number above the state's size. -/
+theorem history_scan_cursor (ops : List Op) (hv : Valid init ops) (t : Nat) (ht : (run init ops).vis ≤ t)
+    (sb eb : Bound Nat) (n : Nat) (hn : stateSize (run init ops).st + 2 ≤ n)
+    {Cm S : Cur (Ver Nat)} (mems : List (Cm.σ × List (Ver Nat)))
+    (levels : List (List (S.σ × List (Ver Nat))))
+    (hmemT : mems.map (·.2) = memTables (run init ops).st)
+    (hlevT : levels.map (·.map (·.2)) = treeTables (run init ops).st)
+    (hmems : ∀ m ∈ mems, BehEq (SeekAdm Blue.StoreHist.natLt) Cm m.1 (RefCur (Ver Nat)) ⟨m.2, 0⟩)
+    (hfiles : ∀ lvl ∈ levels, ∀ f ∈ lvl,
+      BehEq (SeekAdm Blue.StoreHist.natLt) S f.1 (RefCur (Ver Nat)) ⟨f.2, 0⟩) :
+    BehEq (SeekAdm Blue.StoreHist.natLt)
+      (BoundsC.cur (PruningC.cur (MergingC.cur (Cur.sum Cm (TreeCur Blue.StoreHist.natLt S))
+        (vlt Blue.StoreHist.natLt)) (pcfg t (tombOf (run init ops))) n) (bcfg Blue.StoreHist.natLt sb eb) n)
+      (BoundsC.new (PruningC.cur (MergingC.cur (Cur.sum Cm (TreeCur Blue.StoreHist.natLt S))
+          (vlt Blue.StoreHist.natLt)) (pcfg t (tombOf (run init ops))) n) (bcfg Blue.StoreHist.natLt sb eb)
+        (PruningC.new (MergingC.cur (Cur.sum Cm (TreeCur Blue.StoreHist.natLt S)) (vlt Blue.StoreHist.natLt))
+          (MergingC.new (Cur.sum Cm (TreeCur Blue.StoreHist.natLt S)) (vlt Blue.StoreHist.natLt)
+            (storeKids mems levels))))
+      (RefCur (Ver Nat)) ⟨specScan ops sb eb, 0⟩ :=
+  Blue.StoreHist.history_scan_cursor ops hv t ht sb eb n hn mems levels hmemT hlevT hmems hfiles
+
+/-- **the level pre-filter of `Version::range_scan` leaves out only files without an in-range key**:
+    `fileInBounds` is `compare_bounds_le(start, Included(last_key)) && compare_bounds_le(Included(
+    first_key), end)` as the code evaluates it (`cmpBoundsLe`, keys as ranks); a well-formed file
+    holding a version whose key is in range passes it -/
+theorem range_prefilter_keeps_in_range_files (sb eb : Bound Nat) (f : KFile) (hw : (toT f).Wf) (v : Ver Nat)
+    (hv : v ∈ f.vers) (hin : inRange Blue.StoreHist.natLt sb eb v = true) : fileInBounds sb eb f = true :=
+  fileInBounds_of_inRange sb eb f hw v hv hin
+
+/-- **history_scan_cursor_in_range**: the same for the children `range_scan` REALLY builds
+    (`memTablesR` / `treeTablesR`): each memtable child restricted to the bounds (a `BoundsCursor`
+    over the memtable: its table is the window, C11 `bounds_over`), every level-0 file in full, every
+    level ≥ 1 as the concatenation of the files passing the pre-filter, a level left without files not
+    pushed.  Same specification list `specScan ops sb eb`. -/
+theorem history_scan_cursor_in_range (ops : List Op) (hv : Valid init ops) (t : Nat)
+    (ht : (run init ops).vis ≤ t) (sb eb : Bound Nat) (n : Nat) (hn : stateSize (run init ops).st + 2 ≤ n)
+    {Cm S : Cur (Ver Nat)} (mems : List (Cm.σ × List (Ver Nat)))
+    (levels : List (List (S.σ × List (Ver Nat))))
+    (hmemT : mems.map (·.2) = memTablesR sb eb (run init ops).st)
+    (hlevT : levels.map (·.map (·.2)) = treeTablesR sb eb (run init ops).st)
+    (hmems : ∀ m ∈ mems, BehEq (SeekAdm Blue.StoreHist.natLt) Cm m.1 (RefCur (Ver Nat)) ⟨m.2, 0⟩)
+    (hfiles : ∀ lvl ∈ levels, ∀ f ∈ lvl,
+      BehEq (SeekAdm Blue.StoreHist.natLt) S f.1 (RefCur (Ver Nat)) ⟨f.2, 0⟩) :
+    BehEq (SeekAdm Blue.StoreHist.natLt)
+      (BoundsC.cur (PruningC.cur (MergingC.cur (Cur.sum Cm (TreeCur Blue.StoreHist.natLt S))
+        (vlt Blue.StoreHist.natLt)) (pcfg t (tombOf (run init ops))) n) (bcfg Blue.StoreHist.natLt sb eb) n)
+      (BoundsC.new (PruningC.cur (MergingC.cur (Cur.sum Cm (TreeCur Blue.StoreHist.natLt S))
+          (vlt Blue.StoreHist.natLt)) (pcfg t (tombOf (run init ops))) n) (bcfg Blue.StoreHist.natLt sb eb)
+        (PruningC.new (MergingC.cur (Cur.sum Cm (TreeCur Blue.StoreHist.natLt S)) (vlt Blue.StoreHist.natLt))
+          (MergingC.new (Cur.sum Cm (TreeCur Blue.StoreHist.natLt S)) (vlt Blue.StoreHist.natLt)
+            (storeKids mems levels))))
+      (RefCur (Ver Nat)) ⟨specScan ops sb eb, 0⟩ :=
+  Blue.StoreHist.history_scan_cursor_in_range ops hv t ht sb eb n hn mems levels hmemT hlevT hmems hfiles
+
+/-- **history_scan_matches_point_reads**: (1) every version the scan shows: the point read of its
+    key answers a value — the last write's, C01 `history_reads_last_write` — and that value is the
+    payload of the shown version; (2) every key in range whose point read answers a value is shown
+    with that value.  A key reading `none` (never written) or `some none` (deleted) is not shown
+    (`spec_scan_members`). -/
+theorem history_scan_matches_point_reads (ops : List Op) (hv : Valid init ops) (sb eb : Bound Nat) :
+    (∀ e ∈ specScan ops sb eb, ∃ v, Blue.StoreHist.read (run init ops) e.1 = some (some v)
+        ∧ lastWrite ops e.1 = some (some v) ∧ (run init ops).pay e.1 e.2 = some (some v))
+    ∧ (∀ k v, Blue.StoreHist.read (run init ops) k = some (some v) →
+        (∀ ts, inRange Blue.StoreHist.natLt sb eb (k, ts) = true) →
+        ∃ ts, (k, ts) ∈ specScan ops sb eb ∧ (run init ops).pay k ts = some (some v)) :=
+  Blue.StoreHist.history_scan_matches_point_reads ops hv sb eb
+
+/-! non-vacuity: ten operations — a batch, rollover + flush, a delete of key 2, a put, rollover +
+    flush (two level-0 files), a compaction of the older file into level 1 as TWO files (the newer
+    file stays in level 0), an overwrite of key 1, a put of key 4.  The reached store has a
+    memtable, one level-0 file and a two-file level 1.  Bounds `[1, 4)`. -/
+namespace HistCur
+
+def ops : List Op :=
+  [.write [(1, some 10), (2, some 20)], .rollover, .flush, .write [(2, none)], .write [(3, some 30)],
+   .rollover, .flush,
+   .compact [⟨2, 3, 4, [(3, 4), (2, 3)]⟩] [[⟨1, 1, 1, [(1, 1)]⟩, ⟨2, 2, 1, [(2, 1)]⟩]],
+   .write [(1, some 11)], .write [(4, some 40)]]
+
+theorem before_compaction : (run init (ops.take 7)).st
+    = ⟨[], none, [⟨2, 3, 4, [(3, 4), (2, 3)]⟩, ⟨1, 2, 1, [(1, 1), (2, 1)]⟩], []⟩ := by rfl
+
+theorem ops_valid : Valid init ops := by
+  refine ⟨trivial, trivial, trivial, trivial, trivial, trivial, trivial, ?_, trivial, trivial, trivial⟩
+  show CompactionOk (run init (ops.take 7)).st _
+  rw [before_compaction]
+  refine .mk [(false, [(3, 4), (2, 3)]), (true, [(1, 1), (2, 1)])] [] [[(1, 1)], [(2, 1)]]
+    [[(3, 4), (2, 3)]] [] rfl rfl ?_
+    (closedB_sound _ (by decide)) (mem_iff_of_subsets (by decide) (by decide)) (by decide) rfl
+    (fun c hc => by cases hc) ?_ (fun g hg => by
+      have : g = ⟨2, 3, 4, [(3, 4), (2, 3)]⟩ := List.mem_singleton.mp hg
+      subst this; exact List.mem_cons_self) (i1_of_check _ (by decide))
+  · unfold treeComps l0Comps
+    rw [l0Order_cons_top _ _ (by decide), l0Order_cons_top _ _ (by decide), l0Order_nil]
+    rfl
+  · unfold treeComps l0Comps
+    rw [l0Order_cons_top _ _ (by decide), l0Order_nil]
+    rfl
+
+theorem final : (run init ops).st
+      = ⟨[(4, 7), (1, 6)], none, [⟨2, 3, 4, [(3, 4), (2, 3)]⟩], [[⟨1, 1, 1, [(1, 1)]⟩, ⟨2, 2, 1, [(2, 1)]⟩]]⟩
+    ∧ (run init ops).vis = 7 := ⟨by rfl, by rfl⟩
+
+/-- the specification side by evaluation: key 2 deleted, key 4 out of range -/
+theorem spec_list : specScan ops (.included 1) (.excluded 4) = [(1, 6), (3, 4)]
+    ∧ specScan ops .unbounded .unbounded = [(1, 6), (3, 4), (4, 7)] := ⟨by decide, by decide⟩
+
+/-- the children, as reference cursors over the tables of the reached state's components -/
+def mems : List ((RefCur (Ver Nat)).σ × List (Ver Nat)) := [fileOf [(1, 6), (4, 7)]]
+def levels : List (List ((RefCur (Ver Nat)).σ × List (Ver Nat))) :=
+  [[fileOf [(2, 3), (3, 4)]], [fileOf [(1, 1)], fileOf [(2, 1)]]]
+
+theorem kids_are_the_state's : mems.map (·.2) = memTables (run init ops).st
+    ∧ levels.map (·.map (·.2)) = treeTables (run init ops).st := by
+  rw [final.1]; exact ⟨by decide, by decide⟩
+
+theorem ref_beh (xs : List (Ver Nat)) :
+    BehEq (SeekAdm Blue.StoreHist.natLt) (RefCur (Ver Nat)) (fileOf xs).1 (RefCur (Ver Nat)) ⟨(fileOf xs).2, 0⟩ :=
+  fun _ _ => rfl
+
+/-- the program `seek_to_first, next, next, prev, seek 2, next` -/
+def prog : List (Op (Ver Nat)) := [.first, .next, .next, .prev, .seek (geKey Blue.StoreHist.natLt 2), .next]
+
+theorem prog_adm : ∀ k, Adm (SeekAdm Blue.StoreHist.natLt) (prog.take k) := by
+  intro k op hop
+  have hop := List.mem_of_mem_take hop
+  simp only [prog, List.mem_cons, List.not_mem_nil, or_false] at hop
+  rcases hop with rfl | rfl | rfl | rfl | rfl | rfl
+  all_goals first | trivial | exact Or.inl ⟨2, rfl⟩
+
+/-- all hypotheses of `history_scan_cursor` hold on this history, and the theorem says something:
+    the stack over the reached state's children shows, before the first call and after each call
+    (`seek_to_first` positions BEFORE the first entry, as `sst::Cursor` does),
+    `-, -, 1@6, 3@4, 1@6 (prev), 3@4 (seek 2: key 2 is deleted), end (key 4 is out of range)` -/
+example :
+    (List.range 7).map (fun k =>
+      ((BoundsC.cur (PruningC.cur (MergingC.cur (Cur.sum (RefCur (Ver Nat)) (TreeCur Blue.StoreHist.natLt (RefCur (Ver Nat))))
+          (vlt Blue.StoreHist.natLt)) (pcfg 7 (tombOf (run init ops))) 9) (bcfg Blue.StoreHist.natLt (.included 1) (.excluded 4)) 9).beh
+        (BoundsC.new (PruningC.cur (MergingC.cur (Cur.sum (RefCur (Ver Nat)) (TreeCur Blue.StoreHist.natLt (RefCur (Ver Nat))))
+            (vlt Blue.StoreHist.natLt)) (pcfg 7 (tombOf (run init ops))) 9) (bcfg Blue.StoreHist.natLt (.included 1) (.excluded 4))
+          (PruningC.new (MergingC.cur (Cur.sum (RefCur (Ver Nat)) (TreeCur Blue.StoreHist.natLt (RefCur (Ver Nat)))) (vlt Blue.StoreHist.natLt))
+            (MergingC.new (Cur.sum (RefCur (Ver Nat)) (TreeCur Blue.StoreHist.natLt (RefCur (Ver Nat)))) (vlt Blue.StoreHist.natLt)
+              (storeKids mems levels))))
+        (prog.take k)).1)
+      = [none, none, some (1, 6), some (3, 4), some (1, 6), some (3, 4), none] := by
+  have h := Blue.Props.C03.history_scan_cursor ops ops_valid 7 (by rw [final.2]; exact Nat.le_refl _)
+    (.included 1) (.excluded 4) 9 (by rw [final.1]; decide) mems levels kids_are_the_state's.1
+    kids_are_the_state's.2
+    (by intro m hm; simp only [mems, List.mem_cons, List.not_mem_nil, or_false] at hm
+        subst hm; exact ref_beh _)
+    (by intro lvl hl x hx
+        simp only [levels, List.mem_cons, List.not_mem_nil, or_false] at hl
+        rcases hl with rfl | rfl <;> simp only [List.mem_cons, List.not_mem_nil, or_false] at hx
+        · subst hx; exact ref_beh _
+        · rcases hx with rfl | rfl <;> exact ref_beh _)
+  rw [spec_list.1] at h
+  have e : ∀ k, _ = _ := fun k => h (prog.take k) (prog_adm k)
+  simp only [List.range, List.range.loop, List.map_cons, List.map_nil, e]
+  decide
+
+/-- the restricted children for the bounds `[2, ∞)`: the memtable's window `[4@7]` (key 1 is below
+    the start), the level-0 file in full, and level 1 WITHOUT its first file `[1@1]` (`last_key = 1`
+    fails `compare_bounds_le(Included 2, Included 1)`) -/
+def memsR : List ((RefCur (Ver Nat)).σ × List (Ver Nat)) := [fileOf [(4, 7)]]
+def levelsR : List (List ((RefCur (Ver Nat)).σ × List (Ver Nat))) :=
+  [[fileOf [(2, 3), (3, 4)]], [fileOf [(2, 1)]]]
+
+theorem kidsR_are_the_state's : memsR.map (·.2) = memTablesR (.included 2) .unbounded (run init ops).st
+    ∧ levelsR.map (·.map (·.2)) = treeTablesR (.included 2) .unbounded (run init ops).st := by
+  rw [final.1]; exact ⟨by decide, by decide⟩
+
+/-- `history_scan_cursor_in_range` instantiated: the tombstone `2@3` of the level-0 file hides `2@1`
+    of level 1; the scan shows `3@4, 4@7` -/
+example : specScan ops (.included 2) .unbounded = [(3, 4), (4, 7)] ∧
+    BehEq (SeekAdm Blue.StoreHist.natLt)
+      (BoundsC.cur (PruningC.cur (MergingC.cur (Cur.sum (RefCur (Ver Nat)) (TreeCur Blue.StoreHist.natLt (RefCur (Ver Nat))))
+        (vlt Blue.StoreHist.natLt)) (pcfg 7 (tombOf (run init ops))) 9) (bcfg Blue.StoreHist.natLt (.included 2) .unbounded) 9)
+      (BoundsC.new (PruningC.cur (MergingC.cur (Cur.sum (RefCur (Ver Nat)) (TreeCur Blue.StoreHist.natLt (RefCur (Ver Nat))))
+          (vlt Blue.StoreHist.natLt)) (pcfg 7 (tombOf (run init ops))) 9) (bcfg Blue.StoreHist.natLt (.included 2) .unbounded)
+        (PruningC.new (MergingC.cur (Cur.sum (RefCur (Ver Nat)) (TreeCur Blue.StoreHist.natLt (RefCur (Ver Nat)))) (vlt Blue.StoreHist.natLt))
+          (MergingC.new (Cur.sum (RefCur (Ver Nat)) (TreeCur Blue.StoreHist.natLt (RefCur (Ver Nat)))) (vlt Blue.StoreHist.natLt)
+            (storeKids memsR levelsR))))
+      (RefCur (Ver Nat)) ⟨[(3, 4), (4, 7)], 0⟩ := by
+  have e : specScan ops (.included 2) .unbounded = [(3, 4), (4, 7)] := by decide
+  refine ⟨e, ?_⟩
+  have h := Blue.Props.C03.history_scan_cursor_in_range ops ops_valid 7 (by rw [final.2]; exact Nat.le_refl _)
+    (.included 2) .unbounded 9 (by rw [final.1]; decide) memsR levelsR kidsR_are_the_state's.1
+    kidsR_are_the_state's.2
+    (by intro m hm; simp only [memsR, List.mem_cons, List.not_mem_nil, or_false] at hm
+        subst hm; exact ref_beh _)
+    (by intro lvl hl x hx
+        simp only [levelsR, List.mem_cons, List.not_mem_nil, or_false] at hl
+        rcases hl with rfl | rfl <;> simp only [List.mem_cons, List.not_mem_nil, or_false] at hx
+        · subst hx; exact ref_beh _
+        · subst hx; exact ref_beh _)
+  rw [e] at h
+  exact h
+
+/-- the pre-filter on this state: the file `[1@1]` fails it for `[2, ∞)`, the file `[2@1]` passes -/
+example : fileInBounds (.included 2) .unbounded ⟨1, 1, 1, [(1, 1)]⟩ = false
+    ∧ fileInBounds (.included 2) .unbounded ⟨2, 2, 1, [(2, 1)]⟩ = true := by decide
+
+/-- matching point reads on this history: keys 1 and 3 read the values shown; key 2 reads a
+    tombstone and is not shown -/
+example : Blue.StoreHist.read (run init ops) 1 = some (some 11) ∧ Blue.StoreHist.read (run init ops) 3 = some (some 30)
+    ∧ Blue.StoreHist.read (run init ops) 2 = some none := by
+  simp only [Blue.StoreHist.history_reads_last_write ops ops_valid]
+  decide
+
+end HistCur
+end HistoryCursor
+-- END StoreHistCursor
+
 end Blue.Props.C03
 
 #print axioms Blue.Props.C03.scan_spec
@@ -498,6 +773,13 @@ end Blue.Props.C03
 #print axioms Blue.Props.C03.history_scan_refines
 #print axioms Blue.Props.C03.history_scan_sorted
 #print axioms Blue.Props.C03.history_scan_one_per_key
+#print axioms Blue.Props.C03.history_children_are_tables
+#print axioms Blue.Props.C03.spec_scan_members
+#print axioms Blue.Props.C03.spec_scan_sorted
+#print axioms Blue.Props.C03.history_scan_cursor
+#print axioms Blue.Props.C03.range_prefilter_keeps_in_range_files
+#print axioms Blue.Props.C03.history_scan_cursor_in_range
+#print axioms Blue.Props.C03.history_scan_matches_point_reads
 #print axioms Blue.Cursor.scan_stack
 #print axioms Blue.Spec.sorted_ext
 #print axioms Blue.Cursor.level_over
